@@ -168,6 +168,28 @@ func scenarios(tier string) []*hn.Scenario {
 			out = append(out, sc)
 		}
 	}
+	// the registry has a history when the Send comes: no-op removals (an id never registered, the same id
+	// twice), a removed and a re-registered pipeline; the status counts what is registered NOW
+	for cancel := 0; cancel <= 1; cancel++ {
+		for _, pr := range [][2]int{{-1, -1}, {2, 2}, {3, 3}} {
+			for hi, mk := range []func(b *hn.Builder) *hn.Builder{
+				func(b *hn.Builder) *hn.Builder { return b.Std("t1", "p0", P, D).Std("t1", "p1", P, D).RemovePipe("t1", "ghost") },
+				func(b *hn.Builder) *hn.Builder {
+					return b.Std("t1", "p0", P, D).Std("t1", "p1", P, D).Std("t1", "p2", P, D).RemovePipe("t1", "p2").RemovePipe("t1", "p2")
+				},
+				func(b *hn.Builder) *hn.Builder {
+					return b.Std("t1", "p0", P, D).Std("t1", "p1", P, E).Std("t2", "p0", P, D).RemovePipe("t2", "p0").RemovePipe("t2", "p0").RemovePipe("t9", "p0")
+				},
+				func(b *hn.Builder) *hn.Builder {
+					return b.Std("t1", "p0", P, D).Std("t1", "p1", P, D).RemovePipe("t1", "p0").Std("t1", "p0", P, E)
+				},
+			} {
+				sc := mk(hn.NewBuilder(fmt.Sprintf("registry history %d cancel=%d thr=%d/%d", hi, cancel, pr[0], pr[1]))).Scenario()
+				sc.Cancel, sc.Thr, sc.ThrSinks, sc.Bound = cancel, pr[0], pr[1], 1
+				out = append(out, sc)
+			}
+		}
+	}
 	// shared formatter and sink ids between the pipelines (same id reported twice)
 	for _, v := range [][]int{{0, 0}, {0, 1}, {0, 3}, {0, 0, 1}} {
 		for cancel := 0; cancel <= 1; cancel++ {
